@@ -171,7 +171,13 @@ class Tr:
             if callee is None or fname not in self.calls: raise Unsupported("call to %s" % fname)
             vals = args[1:-1]                                   # drop the functor object and the modulus index cm
             def go(i, acc):
-                if i == len(vals): self.note_param("p"); return "(bind (%s p %s) (fun %s => %s))" % (self.calls[fname], " ".join(acc), "r_call", k("r_call"))
+                if i == len(vals):
+                    self.note_param("p"); cn = self.calls[fname]
+                    if isinstance(cn, tuple):                                   # (name, extra modulus-dependent parameters such as pn)
+                        for x_ in cn[1]: self.note_param(x_)
+                        cn = cn[0] + " p " + " ".join(cn[1])
+                    else: cn = cn + " p"
+                    return "(bind (%s %s) (fun %s => %s))" % (cn, " ".join(acc), "r_call", k("r_call"))
                 return self.expr(vals[i], lambda t: go(i + 1, acc + [t]))
             return go(0, [])
         raise Unsupported("expression " + kind)
